@@ -167,6 +167,8 @@ struct Script {
     eof: bool,
     waker: Option<Waker>,
     out: Vec<u8>,
+    pend: Vec<u8>,        // written but not flushed yet: the stream is write-buffering (like a BufWriter or a TLS session under
+                          // back-pressure): the peer sees written bytes only once they were flushed or the stream was shut down
     caps: Vec<usize>,     // capacity offered by the reader at each poll_read (first 12)
     got: Vec<usize>,      // bytes delivered at each poll_read (first 12); 999 = Pending
     reads: usize,
@@ -295,16 +297,22 @@ impl hyper::rt::Read for ScriptIo {
 impl hyper::rt::Write for ScriptIo {
     fn poll_write(self: Pin<&mut Self>, _cx: &mut Context<'_>, buf: &[u8]) -> Poll<std::io::Result<usize>> {
         self.brake();
-        self.0.lock().unwrap().out.extend_from_slice(buf);
+        self.0.lock().unwrap().pend.extend_from_slice(buf);
         Poll::Ready(Ok(buf.len()))
     }
     fn poll_flush(self: Pin<&mut Self>, _cx: &mut Context<'_>) -> Poll<std::io::Result<()>> {
         self.brake();
+        let mut s = self.0.lock().unwrap();
+        let p = std::mem::take(&mut s.pend);
+        s.out.extend_from_slice(&p);
         Poll::Ready(Ok(()))
     }
     fn poll_shutdown(self: Pin<&mut Self>, _cx: &mut Context<'_>) -> Poll<std::io::Result<()>> {
         self.brake();
-        self.0.lock().unwrap().shutdown = true;
+        let mut s = self.0.lock().unwrap();
+        let p = std::mem::take(&mut s.pend);
+        s.out.extend_from_slice(&p);
+        s.shutdown = true;
         Poll::Ready(Ok(()))
     }
 }
@@ -317,16 +325,22 @@ impl tokio::io::AsyncRead for ScriptIo {
 impl tokio::io::AsyncWrite for ScriptIo {
     fn poll_write(self: Pin<&mut Self>, _cx: &mut Context<'_>, buf: &[u8]) -> Poll<std::io::Result<usize>> {
         self.brake();
-        self.0.lock().unwrap().out.extend_from_slice(buf);
+        self.0.lock().unwrap().pend.extend_from_slice(buf);
         Poll::Ready(Ok(buf.len()))
     }
     fn poll_flush(self: Pin<&mut Self>, _cx: &mut Context<'_>) -> Poll<std::io::Result<()>> {
         self.brake();
+        let mut s = self.0.lock().unwrap();
+        let p = std::mem::take(&mut s.pend);
+        s.out.extend_from_slice(&p);
         Poll::Ready(Ok(()))
     }
     fn poll_shutdown(self: Pin<&mut Self>, _cx: &mut Context<'_>) -> Poll<std::io::Result<()>> {
         self.brake();
-        self.0.lock().unwrap().shutdown = true;
+        let mut s = self.0.lock().unwrap();
+        let p = std::mem::take(&mut s.pend);
+        s.out.extend_from_slice(&p);
+        s.shutdown = true;
         Poll::Ready(Ok(()))
     }
 }
